@@ -184,6 +184,7 @@ type Interp struct {
 	// Facts about the run that callers use to classify or exclude it.
 	BigContainer    bool // a container above the small-representation thresholds (arrays > 8, maps > 4) existed
 	IndexAssign     bool // an index assignment was executed
+	BigIndexAssign  bool // ... on an array of more than 8 elements or a map of more than 4 pairs
 	BigAppends      int  // x + y with x an array of more than 8 elements
 	CallDepthMax    int
 	depth           int
@@ -546,7 +547,10 @@ func (in *Interp) binary(op string, l, r val.V) res {
 			if r.I < 0 {
 				return fail("right operand of * on strings must be positive")
 			}
-			if int64(len(l.S))*r.I > 1<<20 {
+			if len(l.S) == 0 || r.I == 0 {
+				return ok(val.S(""))
+			}
+			if r.I > 1<<20 || int64(len(l.S))*r.I > 1<<20 {
 				unspecified("huge string")
 			}
 			return ok(val.S(strings.Repeat(l.S, int(r.I))))
@@ -561,7 +565,10 @@ func (in *Interp) binary(op string, l, r val.V) res {
 			if r.I < 0 {
 				return fail("right operand of * on arrays must be positive")
 			}
-			if int64(len(l.A))*r.I > 1<<16 {
+			if len(l.A) == 0 || r.I == 0 {
+				return ok(val.V{K: val.Arr, A: []val.V{}})
+			}
+			if r.I > 1<<16 || int64(len(l.A))*r.I > 1<<16 {
 				unspecified("huge array")
 			}
 			out := val.V{K: val.Arr, A: []val.V{}}
@@ -719,6 +726,9 @@ func (in *Interp) indexAssign(which *gen.Node, idx val.V, v val.V, idxRes ...res
 		unspecified("error value as index of an assignment")
 	}
 	in.IndexAssign = true
+	if (cur.K == val.Arr && len(cur.A) > 8) || (cur.K == val.Map && len(cur.M) > 4) {
+		in.BigIndexAssign = true
+	}
 	switch cur.K {
 	case val.Arr:
 		if idx.K != val.Int {
